@@ -3,7 +3,7 @@
    Models: Misc/Semver.v (Masterminds/semver v3.2.1 NewVersion / String / Compare as used by
    tools/cmd/tag.go), Misc/Tag.v ([decide]: refs, requested VERSION, dirty, dry-run, HEAD
    |-> exit class, refs', stdout).  The model is the FIXED tagger (fixes/c20-dry-run.diff,
-   fixes/c20-tag-ref-name.diff). *)
+   fixes/c20-tag-ref-name.diff, fixes/c20-packed-refs.diff). *)
 From Coq Require Import NArith Permutation.
 From Mk Require Import Lib.Bytes Misc.Semver Misc.Semver_proofs Misc.Tag Misc.Tag_proofs.
 
@@ -54,7 +54,11 @@ Print Assumptions C20_compare_is_semver_precedence.
 Theorem C20_compare_refuted_huge : exists a b,
   parse (B "v3.1.0-99999999999999999999") = Some a /\ parse (B "v3.1.0-100000000000000000000") = Some b /\
   wf a = true /\ wf b = true /\ compare a b = Gt /\ spec_compare a b = Lt.
-Proof. eexists. eexists. vm_compute. repeat split; reflexivity. Qed.
+Proof.
+  exists {| major := 3; minor := 1; patch := 0; pre := B "99999999999999999999"; meta := [] |}.
+  exists {| major := 3; minor := 1; patch := 0; pre := B "100000000000000000000"; meta := [] |}.
+  repeat split; vm_compute; reflexivity.
+Qed.
 Print Assumptions C20_compare_refuted_huge.
 
 (* the guard [small] holds of ordinary versions, up to the last uint64 *)
